@@ -537,12 +537,14 @@ func (idx *HNSWIndex) insertNode(node *hnswNode) {
 	// Insert and connect at each layer
 	for lc := node.Level; lc >= 0; lc-- {
 		candidates := idx.searchLayer(node.Vector(), curr, idx.efConstruction, lc)
+		onlyLink := false
 		if len(candidates) == 0 && lc == 0 && idx.nodes[curr] != nil {
 			// Every node reachable from the entry point is soft-deleted. Hang the
 			// new node off the closest of them anyway: otherwise nothing would
 			// link to it and no search could ever reach it.
 			d := idx.distance.Calculate(node.Vector(), idx.nodes[curr].Vector())
 			candidates = []candidate{{id: curr, distance: d}}
+			onlyLink = true
 		}
 
 		M := idx.M
@@ -562,6 +564,18 @@ func (idx *HNSWIndex) insertNode(node *hnswNode) {
 
 				if len(neighbor.Edges[lc]) > M {
 					idx.pruneConnections(neighborID, lc, M)
+					if onlyLink {
+						// This back-edge is the only way to the new node, so it has
+						// to survive pruning; the edge it displaces leads to a
+						// soft-deleted node.
+						kept := false
+						for _, id := range neighbor.Edges[lc] {
+							kept = kept || id == node.ID()
+						}
+						if !kept {
+							neighbor.Edges[lc][len(neighbor.Edges[lc])-1] = node.ID()
+						}
+					}
 				}
 			}
 		}
